@@ -61,6 +61,11 @@ def _setup():
         async def encode_async(self, documents):
             return self.encode(documents)
 
+    # COLANGPATH: make `import nemoguardrails.library.…` (the shipped 2.x rail flows) resolvable
+    from nemoguardrails.rails.llm import config as _cfgmod
+
+    if REPO not in _cfgmod.colang_path_dirs:
+        _cfgmod.colang_path_dirs.append(REPO)
     try:
         register_embedding_provider(FakeEmb, "fakeemb")
     except Exception:  # noqa  already registered
@@ -96,6 +101,28 @@ models:
     engine: fakeemb
     model: fake
 enable_rails_exceptions: {exc}
+"""
+
+# with "sc": the shipped `self check input` / `self check output` rails are configured last (rail id SC_ID);
+# in 2.x the rail lists then go through the YAML `rails:` section (config.py generates `input rails` / `output rails`)
+SC_ID = 100
+SC_IN_PREFIX = "SELF-CHECK-INPUT::"
+SC_OUT_PREFIX = "SELF-CHECK-OUTPUT::"
+YAML_SC = """
+prompts:
+  - task: self_check_input
+    content: |-
+      SELF-CHECK-INPUT::{{ user_input }}::END
+  - task: self_check_output
+    content: |-
+      SELF-CHECK-OUTPUT::{{ bot_response }}::END
+"""
+YAML_RAILS = """
+rails:
+  input:
+    flows: [{inflows}]
+  output:
+    flows: [{outflows}]
 """
 
 
@@ -191,10 +218,13 @@ flow answering
   $answer = ..."Answer the question of the user."
   bot say $answer
 """)
-    if case["in"]:
-        parts.append("flow input rails $input_text\n" + "".join(f"  scripted in rail r{i}\n" for i in case["in"]))
-    if case["out"]:
-        parts.append("flow output rails $output_text\n" + "".join(f"  scripted out rail r{i}\n" for i in case["out"]))
+    sc = bool(case.get("sc"))
+    if sc:
+        parts.insert(3, "import nemoguardrails.library.self_check.input_check\nimport nemoguardrails.library.self_check.output_check")
+    if case["in"] or sc:
+        parts.append("flow input rails $input_text\n" + "".join(f"  scripted in rail r{i}\n" for i in case["in"]) + ("  self check input\n" if sc else ""))
+    if case["out"] or sc:
+        parts.append("flow output rails $output_text\n" + "".join(f"  scripted out rail r{i}\n" for i in case["out"]) + ("  self check output\n" if sc else ""))
     for i in sorted(set(case["in"])):
         parts.append(v2_rail_flow("in", i))
     for i in sorted(set(case["out"])):
@@ -275,6 +305,14 @@ def _make_llm():
             _STATE["last_task"] = None
             _STATE["rec"].append(["llm", task, prompt if isinstance(prompt, str) else str(prompt)])
             t = _STATE["script"]
+            if task in ("self_check_input", "self_check_output"):
+                # the shipped self-check rails: an LLM call is the rail's check; answer "Yes" = block
+                kind = "in" if task == "self_check_input" else "out"
+                pre = SC_IN_PREFIX if kind == "in" else SC_OUT_PREFIX
+                p = prompt if isinstance(prompt, str) else str(prompt)
+                seen = p.split(pre, 1)[1].rsplit("::END", 1)[0] if pre in p else None
+                _STATE["rec"][-1] = ["rail", kind, SC_ID, seen]
+                return "Yes" if _verdict(kind, SC_ID) == "r" else "No"
             if task == "generate_user_intent":
                 return "  ask " + t.get("intent", "free")
             if task == "generate_next_steps":
@@ -305,7 +343,7 @@ def _q(s):
 
 
 def config_key(case):
-    return (case["ver"], bool(case["dialog"]), bool(case["exc"]), tuple(case["in"]), tuple(case["out"]))
+    return (case["ver"], bool(case["dialog"]), bool(case["exc"]), tuple(case["in"]), tuple(case["out"]), bool(case.get("sc")))
 
 
 def get_rails(case):
@@ -316,15 +354,21 @@ def get_rails(case):
     from nemoguardrails import LLMRails, RailsConfig
 
     with contextlib.redirect_stdout(io.StringIO()):
+        sc = bool(case.get("sc"))
+        inflows = [f"scripted in rail r{i}" for i in case["in"]] + (["self check input"] if sc else [])
+        outflows = [f"scripted out rail r{i}" for i in case["out"]] + (["self check output"] if sc else [])
         if case["ver"] == "1.0":
             yaml = YAML_V1.format(
                 exc="True" if case["exc"] else "False",
-                inflows=", ".join(f'"scripted in rail r{i}"' for i in case["in"]),
-                outflows=", ".join(f'"scripted out rail r{i}"' for i in case["out"]),
-            )
+                inflows=", ".join(f'"{f}"' for f in inflows),
+                outflows=", ".join(f'"{f}"' for f in outflows),
+            ) + (YAML_SC if sc else "")
             cfg = RailsConfig.from_content(colang_content=v1_colang(case), yaml_content=yaml)
         else:
-            cfg = RailsConfig.from_content(colang_content=v2_colang(case), yaml_content=YAML_V2.format(exc="True" if case["exc"] else "False"))
+            yaml = YAML_V2.format(exc="True" if case["exc"] else "False")
+            if sc:
+                yaml += YAML_SC
+            cfg = RailsConfig.from_content(colang_content=v2_colang(case), yaml_content=yaml)
         rails = LLMRails(cfg, llm=_make_llm())
         for kind, ids in (("in", case["in"]), ("out", case["out"])):
             for i in sorted(set(ids)):
